@@ -119,14 +119,18 @@ def check(prog, res, tier):
 
         def chk_many0(p, mode):
             fails = []
-            msgs = p.interp.user['msgs']
+            msgs = p.interp.user.get('msgs')   # a path that ends inside the constructor never reaches write_many
+            if msgs is None:
+                return fails
             for e in p.events:
                 if e.kind == 'ext-call' and e.data['callee'] in ('list', 'tuple', 'sorted', 'reversed') and e.data['args'] and \
-                        p.interp.resolve(e.data['args'][0]) is msgs and e.under(mfi0.short):
+                        p.interp.resolve(e.data['args'][0]) is msgs and mfi0.short in e.stack:
                     fails.append(definite(f'write_many consumes the whole iterable with {e.data["callee"]}() before the first message is '
                                           f'encoded: a producer that refills one dictionary per message ends up with copies of its last '
                                           f'message in the file', e.node, firm=True))
-            for first, last, s0, s1, head in iterations(p, func=mfi0.short):
+            for first, last, s0, s1, head in iterations(p):
+                if mfi0.short not in head.stack:      # the loop may live in the base class method this one delegates to
+                    continue
                 li = [e for e in p.events if e.kind == 'loop-iter' and e.node is head.node and first <= e.seq < last]
                 if not li:
                     continue
